@@ -14,11 +14,19 @@ import (
 // VERIF_ORDER=<order> (process-global lazy state can only be observed in one
 // first-use order per process) and merges its counts and violations.
 func subRunOrder(r *ev.Run, prop, tier, order string) {
+	subRun(r, prop, tier, order, "VERIF_ORDER="+order)
+}
+
+// subRun re-executes the check in a child process with extra environment
+// (first-use order, GOMAXPROCS, ...) and merges counts and violations under
+// the label.
+func subRun(r *ev.Run, prop, tier, order string, extraEnv ...string) {
 	dir := filepath.Join(ev.Root(), ".work", fmt.Sprintf("sub-%d-%s", os.Getpid(), order))
 	_ = os.MkdirAll(dir, 0o755)
 	defer os.RemoveAll(dir)
 	cmd := exec.Command(os.Args[0], prop, tier)
-	cmd.Env = append(os.Environ(), "VERIF_ORDER="+order, "VERIF_EVIDENCE_DIR="+dir, "VERIF_REPLAY_DIR="+dir)
+	cmd.Env = append(os.Environ(), "VERIF_SUBRUN="+order, "VERIF_EVIDENCE_DIR="+dir, "VERIF_REPLAY_DIR="+dir)
+	cmd.Env = append(cmd.Env, extraEnv...)
 	out, err := cmd.CombinedOutput()
 	b, rerr := os.ReadFile(filepath.Join(dir, prop+".json"))
 	if rerr != nil {
@@ -38,7 +46,7 @@ func subRunOrder(r *ev.Run, prop, tier, order string) {
 	r.Eval(doc.Coverage.Evaluations)
 	r.Set("subrun_"+order, map[string]interface{}{"evaluations": doc.Coverage.Evaluations, "violations": doc.Violations})
 	for _, k := range doc.Coverage.ViolationKeys {
-		r.Violate("order="+order+"/"+k, "in a process with first-use order "+order+": "+k, map[string]interface{}{"order": order}, nil)
+		r.Violate("order="+order+"/"+k, "in a child process ("+order+"): "+k, map[string]interface{}{"child": order, "env": extraEnv}, nil)
 	}
 	if doc.Violations > 0 && len(doc.Coverage.ViolationKeys) == 0 {
 		r.Violate("order="+order, "child run reported violations:\n"+tail(out, 2000), nil, nil)
